@@ -21,7 +21,7 @@ class P(EngProp):
     id = "C07"
     rule = ("per case one rewriting stage (or a chain of two) after an always-true selector over 2-8 records with random attributes: label_format renames (dst absent/present, "
             "src absent/present, self-rename, chains), label_format templates, line_format templates (text, .label, __line__, __timestamp__, ToUpper/ToLower, a call failing on "
-            "some records only, a call failing always), drop/keep with names and =,!=,=~,!~ value matchers incl. name+matcher on one label and values containing one another, "
+            "some records only, a call failing always), drop/keep with names and =,!=,=~,!~ value matchers incl. name+matcher on one label, two or three matchers on the same label and values containing one another, "
             "decolorize on lines with CSI sequences. For every entry the generator computes the expected line and the expected full label set from the LogQL reading of the stage; "
             "the check demands them on the observed result, demands that no entry is dropped (count = N), and compares with the model.")
 
@@ -30,7 +30,7 @@ class P(EngProp):
         g = EGen(rng)
         cases = []
         for i in range(n):
-            kind = ["rename", "rename", "tmpl", "linefmt", "linefmt", "drop", "keep", "decolor", "chain"][i % 9]
+            kind = ["rename", "mixed", "tmpl", "linefmt", "linefmt", "drop", "keep", "decolor", "chain", "rename", "mixed", "drop"][i % 12]
             cases.append(self.one(rng, g, kind))
         return cases
 
@@ -93,6 +93,26 @@ class P(EngProp):
                 return l, d
             apply(f)
 
+        def do_mixed():
+            """one label_format stage holding a rename AND a template that reads the renamed label under its old and its new name:
+            renames are applied first, templates are expanded over the labels as they are after the renames"""
+            src = rng.choice(names)
+            dst = rng.choice([n for n in names + ["fresh"] if n != src])
+            tdst = rng.choice([n for n in names + ["fresh2"] if n not in (src, dst)])
+            t, coq, items = gen_template(rng, [src, dst, src, dst] + names[:2], allow_fail=False, guard_label="t", first_labels=rng.choice([[dst, src], [src], [dst]]))
+            pipe.append(g.st_label_format([(dst, src)], [(tdst, t, coq)]))
+
+            def f(r, l, d):
+                d = dict(d)
+                if B(src) in d:
+                    d[B(dst)] = d.pop(B(src))
+                v = expand_py(items, r["ts"], l, d)
+                if v is None:
+                    return l, set_error(d, E_TMPL)
+                d[B(tdst)] = v
+                return l, d
+            apply(f)
+
         def do_linefmt():
             st = g.st_line_format(names, allow_fail=True, guard_label="t")
             pipe.append(st)
@@ -107,10 +127,11 @@ class P(EngProp):
         def do_dropkeep(which):
             nm = rng.sample(names + ["nosuch"], rng.randint(0, 2))
             ms = []
-            for _ in range(rng.randint(0, 2) if nm else rng.randint(1, 2)):
-                l = rng.choice(names if rng.random() < 0.7 or not nm else nm)
-                op = rng.choice(["=", "!="])
-                ms.append(g.matcher([l], for_stage=True) if False else self.eq_matcher(rng, l, op))
+            same = rng.choice(names) if rng.random() < 0.35 else None       # several matchers on ONE label: each list item selects on its own
+            for _ in range(rng.randint(2, 3) if same else (rng.randint(0, 2) if nm else rng.randint(1, 2))):
+                l = same or rng.choice(names if rng.random() < 0.7 or not nm else nm)
+                op = rng.choice(["=", "=", "!="]) if same else rng.choice(["=", "!="])
+                ms.append(self.eq_matcher(rng, l, op))
             pipe.append(g.st_dropkeep(which, nm, ms))
 
             def sel(k, v):
@@ -137,6 +158,8 @@ class P(EngProp):
 
         if kind == "rename":
             do_rename()
+        elif kind == "mixed":
+            do_mixed()
         elif kind == "tmpl":
             do_tmpl()
         elif kind == "linefmt":
